@@ -549,12 +549,24 @@ func oracle(stream, in, outPath string) {
 			flush()
 			started = true
 			cur, rs = compiled{}, nil
-		case "cfg":
-			c, ok := rawFromTokens(t)
-			if !ok {
-				continue
+		case "cfg", "envcfg":
+			var c rawCfg
+			if t[0] == "cfg" {
+				var ok bool
+				if c, ok = rawFromTokens(t); !ok {
+					continue
+				}
+				cur = runReal(c)
+			} else {
+				if len(t) != 27 {
+					continue
+				}
+				flags, ok := rawFromTokens(append([]string{"cfg"}, t[1:25]...))
+				if !ok {
+					continue
+				}
+				cur, c = runRealEnv(flags, t[10] != "~", t[11] != "~", t[24] != "~")
 			}
-			cur = runReal(c)
 			rs = nil
 			if cur.status == "crash" && verdict == "" {
 				verdict = "FAIL crash compiler-panicked"
@@ -564,6 +576,12 @@ func oracle(stream, in, outPath string) {
 				q = parseForOracle(c)
 				if (rs.v4.err != "" || rs.v6.err != "") && verdict == "" {
 					verdict = "FAIL restore-input-rejected " + strings.ReplaceAll(rs.v4.err+rs.v6.err, " ", "_")
+				}
+				// the restore input must be applied without flushing what is already in the tables
+				for _, x := range cur.cmds {
+					if strings.Contains(x, "-restore") && !strings.Contains(x, "--noflush") && verdict == "" {
+						verdict = "FAIL restore-flushes " + strings.ReplaceAll(x, " ", "_")
+					}
 				}
 				if stream == "rules" && verdict == "" {
 					// no packets in this stream: search over this configuration's boundary packets
